@@ -47,6 +47,14 @@ def make_encoding():
             p = fresh_int(c, "first_non_ascii_offset", 0)
             c.assume(p.e <= n.e)
             whole = ByteText(n, p)
+            from symlite.values import fresh_bool
+            # history: the same path may have been examined before, when it held other bytes
+            has_prev = bool(fresh_bool(c, "same_path_examined_before"))
+            if has_prev:
+                n0 = fresh_int(c, "earlier_file_bytes", 0)
+                p0 = fresh_int(c, "earlier_first_non_ascii_offset", 0)
+                c.assume(p0.e <= n0.e)
+            current = [ByteText(n0, p0) if has_prev else whole]
 
             class F:
                 def __enter__(self):
@@ -56,7 +64,8 @@ def make_encoding():
                     return False
 
                 def read(self, k=None):
-                    return whole if k is None or (isinstance(k, int) and k < 0) else whole.prefix(k)
+                    w = current[0]
+                    return w if k is None or (isinstance(k, int) and k < 0) else w.prefix(k)
             seen = {}
 
             def detect(data):
@@ -67,8 +76,15 @@ def make_encoding():
             fmod.open = lambda fname, mode="r", *a, **k: F()
             fmod.chardet = type("C", (), {"detect": staticmethod(detect)})
             try:
+                if has_prev:
+                    fmod.get_encoding("f.sql", "autodetect")   # REAL, earlier content
+                    current[0] = whole
+                    seen.clear()
+                    c.witness("content_changed_between_calls")
                 enc = fmod.get_encoding("f.sql", "autodetect")  # REAL
             finally:
+                if hasattr(fmod.get_encoding, "cache_clear"):
+                    fmod.get_encoding.cache_clear()
                 import chardet as real_chardet
                 fmod.chardet = real_chardet
                 if real_open is None:
@@ -96,6 +112,11 @@ def replay_encoding(cex):
         body += b"y" * max(0, n - len(body))
     with tempfile.TemporaryDirectory() as d:
         f = os.path.join(d, "f.sql")
+        if cex.get("same_path_examined_before"):
+            n0, p0 = min(int(cex.get("earlier_file_bytes", 0)), 300000), min(int(cex.get("earlier_first_non_ascii_offset", 0)), 300000)
+            b0 = b"x" * p0 + ("é".encode("utf-8") + b"y" * max(0, n0 - p0 - 2) if p0 < n0 else b"")
+            open(f, "wb").write(b0)
+            get_encoding(f, "autodetect")
         open(f, "wb").write(body)
         enc = get_encoding(f, "autodetect")
         try:
@@ -116,13 +137,14 @@ def units(tier, seed):  # noqa: F811
     from lib.runner import Unit
     return _orig_units_c11(tier, seed) + [Unit(
         name="c11.encoding_detection", functions=["sqlfluff.core.helpers.file.get_encoding"],
-        bounds={"file length": "unbounded", "offset of the first non-ASCII byte": "unbounded (or none)"},
+        bounds={"file length": "unbounded", "offset of the first non-ASCII byte": "unbounded (or none)",
+                "history": "the same path examined once before with arbitrary other content, or not"},
         make=make_encoding(), replay=replay_encoding,
         stubs=["open(..., 'rb').read([k]) -> abstract byte text (length + offset of the first non-ASCII byte, no BOM)",
                "chardet.detect -> 'utf-8', records what it was shown"],
         assumptions=["no BOM", "chardet is right when it is shown the non-ASCII bytes"],
         outside=["BOM handling, utf-16/32", "undecodable bytes (design finding F9: read with backslashreplace, written back as escape text)"],
-        witnesses_required=["ascii", "detected"], sharded=False, timeout_s=120)]
+        witnesses_required=["ascii", "detected", "content_changed_between_calls"], sharded=False, timeout_s=120)]
 
 
 # ---------------------------------------------------------------- whole fix run on real files: bytes outside the edit survive
